@@ -807,7 +807,16 @@ class SInt:
         return Rope([BE(self.t, length)])
 
     def bit_length(self):
-        raise Undecided("bit_length of symbolic int")
+        """exact: a nested If over the thresholds 2^k (needs a proved upper bound 2^520 on |x|)"""
+        c = cur()
+        x = z3.If(self.t < 0, -self.t, self.t)
+        top = next((k for k in (8, 16, 32, 64, 128, 256, 264, 520) if c.valid(x < z3.IntVal(1 << k))), None)
+        if top is None:
+            raise Undecided("bit_length of an unbounded symbolic int")
+        t = z3.IntVal(top)
+        for k in range(top - 1, -1, -1):
+            t = z3.If(x < z3.IntVal(1 << k), z3.IntVal(k), t)
+        return SInt(t)
 
 
 def _intlike(o):
@@ -833,9 +842,17 @@ def conc_int(v, what="value"):
         s = z3.simplify(v.t)
         if z3.is_bv_value(s):
             return s.as_signed_long()
+    # a small non-negative value that the path condition does not fix: fork over 0..CONC_FORK_MAX
+    if isinstance(v, SInt):
+        c = cur()
+        if c.valid(z3.And(v.t >= 0, v.t <= CONC_FORK_MAX)):
+            for k in range(0, CONC_FORK_MAX + 1):
+                if c.branch(v.t == k):
+                    return k
     raise Undecided("%s must be concrete" % what)
 
 
+CONC_FORK_MAX = 64
 FORMAT_OK = [False]
 
 
